@@ -414,8 +414,8 @@ class XsdSimpleType(XsdType, ValidationMixin[str | bytes, DecodedValueType]):
         if derivation:
             if derivation == self.derivation:
                 derivation = None  # derivation mode checked
-            elif self.derivation:
-                return False
+            elif self.derivation or derivation == 'extension':
+                return False  # built-in simple types are never derived by extension
 
         if other.ref is not None:
             other = other.ref
